@@ -16,7 +16,7 @@ Inductive kwval := VNone | VInt (z:Z) | VBool (b:bool) | VStr (s:string) | VInts
 Definition kwargs := list (string * kwval).
 (* the keywords the class docstrings (and SciPy) document for the two **kwargs methods *)
 Definition dec_names : list string := ["n"; "ftype"; "zero_phase"].
-Definition det_names : list string := ["type"; "bp"].
+Definition det_names : list string := ["type"; "bp"; "overwrite_data"].   (* overwrite_data: documented by SciPy, passed through by the wrapper *)
 Definition name_in (names:list string) (p:string * kwval) : bool := existsb (String.eqb (fst p)) names.
 Definition kw_ok (names:list string) (kw:kwargs) : bool := forallb (name_in names) kw.
 
